@@ -18,6 +18,11 @@ TRUSTED = [
     "tie T2: the implementation-side canonicity checker (harness/impl.py) is the executable twin of the Lean predicates and is compared with them on generated "
     "(including deliberately broken) coordinate lists and CSR triples each run",
     "producers without a Lean model are covered by the checker on random programs only",
+    "program theorems (program_canonical / program_refines / program_errors, Props/Program.lean) are about evalModel / evalSpec of Model/Expr.lean; "
+    "leg expr ties evalModel to the code at representation level (shape, coords, data, fill, error class) and evalSpec to NumPy on random programs of all "
+    "19 constructor kinds; the validation in front of the kernel models (axis normalisation through the generated normalize_axis, squeeze's own axis rule, "
+    "fill-value checks, compressed_axes checks) is hand-written after the code and covered by that leg only",
+    "program leg: values are kept below 1e6 in magnitude so that the model's unbounded integers and int64 agree",
 ]
 
 
@@ -211,13 +216,141 @@ def leg_c(ctx, rng, n):
             core.log(f"C06 leg C {it}/{n}")
 
 
+# ---------------------------------------------------------------------------------------------------
+# leg expr: random PROGRAMS of the Expr type — model (evalModel) vs code vs NumPy vs spec (evalSpec)
+# ---------------------------------------------------------------------------------------------------
+
+def leg_expr(ctx, rng, n, max_depth):
+    """ties `program_canonical` / `program_refines` / `program_errors` (Props/Program.lean) to the code:
+    every generated program is run by the model, by the dense reference semantics, by the real library
+    (COO inputs; a second run with GCXS or DOK inputs where the operation is offered) and by NumPy."""
+    import sparse
+    from sparse.numba_backend._utils import equivalent
+
+    import c06_expr as E
+
+    progs = [E.gen_program(rng, max_depth) for _ in range(n)]
+    reqs = []
+    for p in progs:
+        j = p.js()
+        reqs.append(["program", j])
+        reqs.append(["program_spec", j])
+    outs = ctx.driver.run(reqs)
+    stats = {"programs": n, "max_depth": max_depth, "by_kind": {}, "by_depth": {}, "model_errors": {}, "oracle_errors": 0,
+             "ok": 0, "variant_runs": {"gcxs": 0, "dok": 0}, "intermediate_arrays_checked": 0, "inputs_with_stored_fill": 0,
+             "programs_with_clean_inputs": 0}
+    for i, p in enumerate(progs):
+        m, s = outs[2 * i], outs[2 * i + 1]
+        kinds = p.kinds()
+        for k in kinds:
+            stats["by_kind"][k] = stats["by_kind"].get(k, 0) + 1
+        stats["by_depth"][str(p.depth)] = stats["by_depth"].get(str(p.depth), 0) + 1
+        case = {"program": p.describe(), "json": p.js(), "depth": p.depth, "oracle": p.err or {"shape": list(p.dense.shape), "fill": p.fill}}
+        fam = f"E:{p.kind}"
+        ctx.case(fam, {"json": case["json"]}, nontrivial=(p.depth >= 1))
+        if "bad" in m or "bad" in s:
+            ctx.fail("A", "expr:driver", case, f"driver rejected the program: {m} {s}")
+            continue
+        if "err" in m:
+            stats["model_errors"][m["err"]] = stats["model_errors"].get(m["err"], 0) + 1
+        # ---- leg B: the reference semantics vs NumPy ---------------------------------------------
+        if p.err:
+            stats["oracle_errors"] += 1
+            if "err" not in s:
+                ctx.fail("B", "expr:spec-vs-numpy", case, f"NumPy / the contract raises ({p.err}) but evalSpec returns {str(s)[:200]}")
+        else:
+            stats["ok"] += 1
+            want = {"shape": list(p.dense.shape), "flat": [int(v) for v in p.dense.reshape(-1)], "fill": p.fill}
+            if s.get("ok") != want:
+                ctx.fail("B", "expr:spec-vs-numpy", case, f"evalSpec {str(s)[:300]} but NumPy {str(want)[:300]}")
+        # ---- the code, COO inputs ----------------------------------------------------------------
+        seen = []
+        try:
+            r = E.run_impl(p, "coo", rng, seen)
+            got = None
+        except Exception as e:  # noqa: BLE001
+            r, got = None, e
+        # leg A: model vs code, on the representation / the error class
+        if got is not None:
+            cls = impl.err_class(got)
+            if m.get("err") != cls:
+                ctx.fail("A", "expr:error-class", case, f"code raises {type(got).__name__} ({cls}): {str(got)[:120]}; model {str(m)[:200]}")
+        else:
+            rep = impl.coo_json(r) if isinstance(r, sparse.COO) else {"type": type(r).__name__}
+            if m.get("ok") != rep:
+                ctx.fail("A", "expr:representation", case, f"code {str(rep)[:400]} but model {str(m)[:400]}")
+        # leg C: the property — canonical form of every array produced, NumPy's values, fill value
+        leaves_clean = all(impl.nofill_problem(x) is None for d, x in seen if d == "lit")
+        stats["inputs_with_stored_fill"] += sum(1 for d, x in seen if d == "lit" and impl.nofill_problem(x))
+        stats["programs_with_clean_inputs"] += int(leaves_clean)
+        msg = check_run(p, r, got, seen, leaves_clean, equivalent)
+        stats["intermediate_arrays_checked"] += len(seen)
+        if msg:
+            ctx.fail("C", f"expr:{p.kind}", case, msg, finding=findings.classify(PID, f"expr:{p.kind}", case, msg))
+            continue
+        # ---- the code, GCXS / DOK inputs ---------------------------------------------------------
+        if rng.random() < 0.6:
+            fmt = str(rng.choice(["gcxs", "dok"]))
+            stats["variant_runs"][fmt] += 1
+            seen2 = []
+            try:
+                r2 = E.run_impl(p, fmt, rng, seen2)
+                got2 = None
+            except Exception as e:  # noqa: BLE001
+                r2, got2 = None, e
+            msg = check_run(p, r2, got2, seen2, False, equivalent)
+            stats["intermediate_arrays_checked"] += len(seen2)
+            if msg:
+                c2 = dict(case, inputs_format=fmt)
+                ctx.fail("C", f"expr[{fmt}]:{p.kind}", c2, msg, finding=findings.classify(PID, f"expr[{fmt}]:{p.kind}", c2, msg))
+        if i % 200 == 0:
+            core.log(f"C06 leg expr {i}/{n}")
+    ctx.cov["expr"] = stats
+
+
+def check_run(p, r, got, seen, leaves_clean, equivalent):
+    """the property on one run of program p: None or a description of the violation"""
+    for desc, arr in seen:
+        m = impl.canonical_problem(arr)
+        if m:
+            return f"result of step `{desc}` ({type(arr).__name__}, shape {arr.shape}) is not canonical: {m}"
+    if p.err:
+        if got is None:
+            return f"NumPy / the contract raises ({p.err}) but the library returned {type(r).__name__} of shape {getattr(r, 'shape', None)}"
+        if impl.err_class(got) == "internal":
+            return f"unclean failure {type(got).__name__}: {str(got)[:160]} (expected: {p.err})"
+        return None
+    if got is not None:
+        return f"the library raises {type(got).__name__}: {str(got)[:160]} but NumPy returns shape {list(p.dense.shape)}"
+    if tuple(r.shape) != tuple(p.dense.shape):
+        return f"shape {tuple(r.shape)} but NumPy {tuple(p.dense.shape)}"
+    if int(r.fill_value) != p.fill:
+        return f"fill value {r.fill_value} but the function of the fill values is {p.fill}"
+    d = np.asarray(r.todense())
+    if not np.array_equal(d, p.dense):
+        return f"values differ from NumPy at {np.argwhere(d != p.dense)[:3].tolist()}: got {d[d != p.dense][:3].tolist()} want {p.dense[d != p.dense][:3].tolist()}"
+    if leaves_clean:
+        m = impl.nofill_problem(r)
+        if m:
+            return f"inputs store no fill-valued entry but the result does: {m}"
+        cnt = int((~np.asarray(equivalent(d, r.fill_value))).sum()) if d.size else 0
+        if r.nnz != cnt:
+            return f"nnz {r.nnz} but {cnt} elements differ from the fill value"
+    return None
+
+
 def run(ctx):
     ctx.trusted = TRUSTED
     ctx.assumptions = ["inputs are built with from_numpy (canonical, no stored fill values)"]
-    core.prove(ctx, PID, uses=["promiseSites"])
+    core.prove(ctx, PID, extra_targets=["SparseV.Props.Program"], uses=["promiseSites", "normalizeAxisInt", "bcastOk", "bcastDim",
+                                                                        "replaceNone", "posifySlice", "posifyInt", "clipSlice", "checkIndexInt"])
     rng = gen.rng_for(ctx.seed, PID)
     leg_a(ctx, rng, 300 if ctx.quick else 3000)
     leg_c(ctx, rng, 500 if ctx.quick else 6000)
+    leg_expr(ctx, gen.rng_for(ctx.seed, PID + ":expr"), 500 if ctx.quick else 30000, 6 if ctx.quick else 10)
     ctx.cov["rule"] = ("leg A: canonical and deliberately broken coordinate lists / CSR triples, Lean predicate vs Python checker; leg C: random programs "
                        "(depth<=4) over 27 operation kinds and COO/GCXS/DOK inputs, every sparse result checked for canonical form, no stored fill values and "
-                       "nnz == number of non-fill elements; distinct by content hash")
+                       "nnz == number of non-fill elements; leg expr: random Expr programs (depth <= 6 quick / 10 thorough; literal inputs with unsorted / repeated "
+                       "coordinates, explicit fill-valued data, nonzero fills, zero-extent axes; 19 operation kinds; a few percent deliberately invalid arguments) run by "
+                       "evalModel, evalSpec, the library (COO inputs, and GCXS / DOK inputs where offered) and NumPy: representation and error class model-vs-code, "
+                       "values + fill spec-vs-NumPy and code-vs-NumPy, canonical form of every intermediate array; distinct by content hash")
